@@ -30,6 +30,58 @@ def stdout_sinks(cg, q):
     return out
 
 
+def operand_walk_rule(rep, repo):
+    """R6: the two ways the operand walk of the extended formatters can run off the instruction window."""
+    from ..repo import enclosing_function, norm
+    n_arith = n_lookup = 0
+    for q, (m, fn) in sorted(repo.functions.items()):
+        if not q.startswith("xdis.opcodes.format."):
+            continue
+        params = {a.arg for a in fn.args.args}
+        if "instructions" not in params:
+            continue
+        body_nodes = [n for n in ast.walk(fn) if enclosing_function(n) is fn]
+        # (a) instructions[v +/- c]
+        for n in body_nodes:
+            if not (isinstance(n, ast.Subscript) and isinstance(n.value, ast.Name) and n.value.id == "instructions" and isinstance(n.slice, ast.BinOp)
+                    and isinstance(n.slice.op, (ast.Add, ast.Sub))):
+                continue
+            names = [x.id for x in ast.walk(n.slice) if isinstance(x, ast.Name)]
+            if len(names) != 1:
+                continue
+            v = names[0]
+            n_arith += 1
+            guarded = False
+            for g in body_nodes:
+                if isinstance(g, ast.If) and g.lineno < n.lineno and g.body and isinstance(g.body[-1], ast.Return):
+                    t = norm(g.test)
+                    if "len(instructions)" in t and any(isinstance(x, ast.Name) and x.id == v for x in ast.walk(g.test)):
+                        rebound = any(isinstance(x, ast.Name) and x.id == v and isinstance(x.ctx, ast.Store) and g.lineno < x.lineno < n.lineno for x in body_nodes)
+                        if not rebound:
+                            guarded = True
+            rep.ob("R6", q, "index:%s" % norm(n), guarded, expected="`if %s >= len(instructions) - k: return` before the use" % v, derived="guarded" if guarded else "no bounds test on %s" % v,
+                   where=repo.where(m, n), msg="instructions[%s] is read without a bounds test: when the operand walk reaches the first instruction of the code object the "
+                                               "extended formats raise IndexError (and otherwise the operand text comes from the wrong instruction)" % norm(n.slice))
+        # (b) results of get_instruction_index_from_offset
+        for n in body_nodes:
+            if isinstance(n, ast.Assign) and isinstance(n.value, ast.Call) and isinstance(n.value.func, ast.Name) and n.value.func.id == "get_instruction_index_from_offset" \
+                    and isinstance(n.targets[0], ast.Name):
+                v = n.targets[0].id
+                n_lookup += 1
+                par = getattr(n, "_parent", None)
+                blk = None
+                for fld in ("body", "orelse", "finalbody"):
+                    b = getattr(par, fld, None)
+                    if isinstance(b, list) and n in b:
+                        blk = b
+                nxt = blk[blk.index(n) + 1] if blk and blk.index(n) + 1 < len(blk) else None
+                ok = isinstance(nxt, ast.If) and norm(nxt.test) in ("%s is None" % v, "not %s" % v) and nxt.body and isinstance(nxt.body[-1], (ast.Return, ast.Raise, ast.Break, ast.Continue))
+                rep.ob("R6", q, "lookup-result:%s" % v, ok, expected="`if %s is None: return ...` immediately after the lookup" % v, derived=norm(nxt)[:60] if nxt is not None else None,
+                       where=repo.where(m, n), msg="get_instruction_index_from_offset returns None when the offset is not in the window; using it as an index raises TypeError")
+    rep.floor("arithmetic window indexes in the extended formatters", n_arith, 2)
+    rep.floor("window lookups in the extended formatters", n_lookup, 4)
+
+
 def _decoder_work(mname):
     from . import dis_rules
     return dis_rules.table_worker(mname, ("C02", "C03", "C04"))
@@ -43,6 +95,8 @@ def run(rep, tier):
     rep.rule("R2", "in the listing loop every instruction is written exactly once, in iteration order, except CACHE entries (hidden) and, in xasm only, EXTENDED_ARG prefixes (folded)")
     rep.rule("R3", "the rendered offset, opcode name, '>>' mark and line number column come from that instruction's offset / opname / is_jump_target / starts_line")
     rep.rule("R4", "every format name pydisasm accepts is dispatched on somewhere in the listing code")
+    rep.rule("R6", "extended formatters (xdis/opcodes/format): an index into the instruction window computed by arithmetic on a walk position is preceded by a "
+                   "bounds test against len(instructions) that returns; every result of get_instruction_index_from_offset is tested for None before use")
     rep.rule("R5", "the instruction records the listing renders are the decoder's: per (opcode table, opcode) the offset/width/operand (C02 rules), "
                    "the operand value and text (C03 rules) and the jump target and label set (C04 rules) agree with Lib/dis.py of that version")
     T = tables()
@@ -200,6 +254,8 @@ def run(rep, tier):
     stray = sorted(c for c in compared if c not in choices and c not in ("asm", "dis"))
     for s_ in stray:
         rep.note("format literal %r is compared with asm_format but is not a format pydisasm accepts (dead branch?)" % s_)
+    # ---------------------------------------------------------------- R6 operand walk of the extended formatters
+    operand_walk_rule(rep, repo)
     # ---------------------------------------------------------------- R5 the decoded records (shared engine with C02/C03/C04)
     from . import dis_rules
     names = sorted(T.reachable)
